@@ -431,7 +431,9 @@ register(FACT, "_combine_factorizations", "array tracker", {"codes": "arr2:int:i
           "ensures": ["forall(a, 0, len(codes), implies(RowNull(a), result0[a] == -1))",
                       "forall(a, 0, len(codes), implies(not RowNull(a), 0 <= result0[a] and forall(b, 0, M(), result1[result0[a], b] == CODES0(a, b))))",
                       "forall(a, 0, len(codes), forall(c, 0, len(codes), implies(not RowNull(a) and not RowNull(c), (result0[a] == result0[c]) == forall(l, 0, M(), CODES0(a, l) == CODES0(c, l)))))"]},
-         specs=FSPECS, callees=_WCS, extra_hyps=lambda eng: [z3.Int("len1_codes") == Mc], props=("C02", "C06"))
+         specs=FSPECS, callees=_WCS, extra_hyps=lambda eng: [z3.Int("len1_codes") == Mc], props=("C02", "C06"),
+         # bounded search only: the defining equations of the mixed-radix code (the callee _weight_code_sum is proved against them; L-radix derives range and injectivity from them)
+         cex={"axioms": ["WT(M() - 1) == 1", "forall(a, 0, len(codes), WS2(a, 0) == 0 and forall(l, 0, M(), WS2(a, l + 1) == WS2(a, l) + CODES0(a, l) * WT(l)) and RowNull(a) == exists(l, 0, M(), CODES0(a, l) == -1))"]})
 
 # ----------------------------------------------------------------------------- _monotonic_factorization (sorted-prefix fast path; chunked keys; float with NaN / int)
 # XM(j): the j-th key of the flattened chunk list; offm(c): first flat index of chunk c (chunks may be empty).
